@@ -163,6 +163,26 @@ def run(ctx):
                 ctx.count('value+force probes')
             except (KeyError, ValueError):
                 ctx.count('probe-skipped:ambiguous-name')
+        # ---- oracle 4 (a share of the cases): the same list in name mode — members must be the standalone name-mode chains
+        if i % 4 == 0:
+            try:
+                mcn = MultiChain([pl.make_config(b, root / f'dn{i}', main=m) for m in mains], parameter_mode=False)
+            except (ValueError, KeyError, AssertionError):
+                mcn = None
+            if mcn is not None:
+                ctx.count('name-mode-probe')
+                for m in mains:
+                    st, err = pl.build(b, root / f'dns{i}', main=m, parameter_mode=False)
+                    if err:
+                        continue
+                    ch = mcn[pl.make_config(b, root / f'dn{i}', main=m).name]
+                    a = {nme: str(t.data_path).replace(str(root / f'dn{i}'), '') for nme, t in ch.tasks.items()}
+                    s_ = {nme: str(t.data_path).replace(str(root / f'dns{i}'), '') for nme, t in st.tasks.items()}
+                    if a != s_:
+                        bad = [k for k in s_ if a.get(k) != s_[k]]
+                        ctx.fail('a member chain of a name-mode MultiChain stores its results elsewhere than the standalone name-mode chain',
+                                 full_case, {'tasks': bad[:3], 'member': [a.get(k) for k in bad[:3]], 'standalone': [s_[k] for k in bad[:3]]})
+                        break
         b.cleanup_module()
     # the recorded K6 witness
     k6_witness(ctx, root)
